@@ -247,6 +247,17 @@ class ItRange(It):
         self.lo = lo
         self.hi = hi
 
+    def next_back(self, it):
+        if is_sym(self.lo) or is_sym(self.hi):
+            if it.st.branch(simp(z3.ULT(bv(self.lo, 64), bv(self.hi, 64)))):
+                self.hi = simp(bv(self.hi, 64) - 1)
+                return some(self.hi)
+            return none()
+        if self.lo < self.hi:
+            self.hi -= 1
+            return some(self.hi)
+        return none()
+
     def next(self, it):
         if is_sym(self.lo) or is_sym(self.hi):
             if it.st.branch(simp(z3.ULT(bv(self.lo, 64), bv(self.hi, 64)))):
@@ -530,6 +541,32 @@ def register_all(M):
         del s.elems[k:]
         return UNIT
 
+    @reg("String::insert")
+    def m_string_insert(it, args, callee):
+        s2 = deref(args[0])
+        k = byte_to_index(it, s2.elems, args[1], "String::insert")
+        s2.elems.insert(k, args[2])
+        return UNIT
+
+    @reg("String::insert_str")
+    def m_string_insert_str(it, args, callee):
+        s2 = deref(args[0])
+        k = byte_to_index(it, s2.elems, args[1], "String::insert_str")
+        s2.elems[k:k] = list(elems_of(args[2]))
+        return UNIT
+
+    @reg("String::remove")
+    def m_string_remove(it, args, callee):
+        s2 = deref(args[0])
+        k = byte_to_index(it, s2.elems, args[1], "String::remove")
+        if k >= len(s2.elems):
+            raise PanicPath("cannot remove a char from the end of a string")
+        return s2.elems.pop(k)
+
+    @reg("str::to_lowercase", "str::to_uppercase", "str::trim", "str::replace")
+    def m_str_unsupported(it, args, callee):
+        raise Unsupported("no model for %s" % callee)
+
     @reg("String::as_str", "String::deref")
     def m_string_as_str(it, args, callee):
         return Str(elems_of(args[0]))
@@ -607,7 +644,39 @@ def register_all(M):
     @reg("str::contains")
     def m_str_contains(it, args, callee):
         if "<char>" not in callee:
-            raise Unsupported("str::contains with a non-char pattern")
+            pat = args[1]
+            dp = deref(pat) if isinstance(pat, Ref) else pat
+            el = elems_of(args[0])
+            if isinstance(dp, Agg) and dp.kind.startswith("closure:") or isinstance(dp, FnItem):
+                for ch in el:
+                    if it.st.branch(it.call_value(dp, [ch])):
+                        return True
+                return False
+            if isinstance(dp, (Str, SString)):
+                needle = elems_of(dp)
+                if len(needle) == 0:
+                    return True
+                conds = []
+                for i in range(0, len(el) - len(needle) + 1):
+                    e = str_eq(el[i:i + len(needle)], needle)
+                    if e is True:
+                        return True
+                    if e is not False:
+                        conds.append(e)
+                return simp(z3.Or(conds)) if conds else False
+            if isinstance(dp, (Slice, SVec)) or (isinstance(dp, Agg) and dp.kind == "array"):
+                sl = slice_of(dp)
+                chars = [sl.items[k] for k in range(sl.lo, sl.hi)]
+                conds = []
+                for ch in el:
+                    for pc in chars:
+                        e = char_eq(ch, pc)
+                        if e is True:
+                            return True
+                        if e is not False:
+                            conds.append(e)
+                return simp(z3.Or(conds)) if conds else False
+            raise Unsupported("str::contains with pattern %r" % (dp,))
         hay = elems_of(args[0])
         c = args[1]
         if is_sym(c) and all(not is_sym(h) for h in hay):
@@ -805,6 +874,18 @@ def register_all(M):
 
     def to_z(v):
         return v if is_sym(v) else z3.BoolVal(bool(v))
+
+    @reg("Ord::min", "Ord::max", "cmp::min", "cmp::max")
+    def m_min_max(it, args, callee):
+        a, b = deref(args[0]), deref(args[1])
+        if isinstance(a, Agg) or isinstance(b, Agg):
+            raise Unsupported("min/max on aggregates")
+        is_min = callee.strip().split("::")[-1].startswith("min") or "::min" in callee
+        if not is_sym(a) and not is_sym(b):
+            return min(a, b) if is_min else max(a, b)
+        bits = a.size() if is_sym(a) else b.size()
+        le = z3.ULE(bv(a, bits), bv(b, bits))
+        return simp(z3.If(le, bv(a, bits), bv(b, bits)) if is_min else z3.If(le, bv(b, bits), bv(a, bits)))
 
     @reg("PartialOrd::gt")
     def m_gt(it, args, callee):
@@ -1148,6 +1229,29 @@ def register_all(M):
     reg("slice::sort_unstable")(sort_model)
 
     # ----------------------------------------------------------------- Range
+    @reg("RangeInclusive::new")
+    def m_range_incl_new(it, args, callee):
+        return Agg("adt:RangeInclusive", None, [args[0], args[1]])
+
+    @reg("RangeInclusive::contains", "Range::contains", "RangeBounds::contains")
+    def m_range_contains(it, args, callee):
+        r = deref(args[0])
+        x = deref(args[1])
+        lo, hi = r.fields[0], r.fields[1]
+        bits = 32
+        for v in (lo, hi, x):
+            if is_sym(v):
+                bits = v.size()
+        m = re.search(r"::<(u8|u16|u32|u64|usize|char)>", callee)
+        if m:
+            bits = {"u8": 8, "u16": 16, "u32": 32, "u64": 64, "usize": 64, "char": 32}[m.group(1)]
+        incl = r.kind == "adt:RangeInclusive"
+        if not any(is_sym(v) for v in (lo, hi, x)):
+            return lo <= x <= hi if incl else lo <= x < hi
+        a = z3.ULE(bv(lo, bits), bv(x, bits))
+        b2 = z3.ULE(bv(x, bits), bv(hi, bits)) if incl else z3.ULT(bv(x, bits), bv(hi, bits))
+        return simp(z3.And(a, b2))
+
     @reg("Range::next@unused")
     def m_unused(it, args, callee):
         raise Unsupported("unused")
